@@ -181,8 +181,11 @@ def main():
             from jaxtyping._storage import _treepath_storage, get_treeflatten_memo
             flags = {"path": getattr(_treepath_storage, "value", None), "flat": bool(get_treeflatten_memo())}
             _treepath_storage.value = None
-            from jaxtyping._storage import clear_treeflatten_memo
-            clear_treeflatten_memo()
+            try:
+                from jaxtyping import _storage as _st
+                _st._treeflatten_storage.value = False
+            except Exception:
+                pass
             out.append({"steps": res, "flags": flags})
     print(json.dumps(out))
 
